@@ -159,6 +159,10 @@ class Fn:
     fuel: bool = False                              # the definition takes a fuel argument (while loops / recursion)
     subst: dict = field(default_factory=dict)      # source expression text -> (lean code over `v`, type)
     stores: dict = field(default_factory=dict)     # assignment-target text -> variable name (DataFrame columns modelled as variables)
+    nested: str | None = None                      # translate the nested function (or "<lambda>") of this name inside `func`
+    captures: list = field(default_factory=list)   # variables of the enclosing function the closure reads / writes: its callback state
+    closures: dict = field(default_factory=dict)   # in an outer function: python name of a nested function / "<lambda>" -> lean name of its translation
+    self_topology: tuple | None = None             # (ids code, pids code) standing for `(self.id(), self.pid())` in `self.traverse(...)`
     tparams: list = field(default_factory=list)    # type parameters
     callbacks: dict = field(default_factory=dict)  # python name -> (lean binder text, arg count, result type)  state-passing over `v.cbs`
     skip_stmts: list = field(default_factory=list)  # source text of statements that are glue (replaced by `subst`-initialised params)
@@ -168,7 +172,7 @@ class Fn:
 
 
 MODULE_STRUCTS = {"AlgoDsu": ["DisjointSetUnion"], "AlgoPopulation": ["ChainTrees", "LazyLoadingTrees", "NestTrees"]}
-MODULE_IMPORTS = {"AlgoCheckers": ["AlgoDsu"]}
+MODULE_IMPORTS = {"AlgoCheckers": ["AlgoDsu"], "AlgoBranches": ["AlgoTraverse"]}
 
 STRUCTS = {
     "DisjointSetUnion": {"element_parent": "List Int", "rank": "List Int"},
@@ -530,6 +534,44 @@ class FnTr:
         f = ast.unparse(e.func)
         args = e.args
         kw = {k.arg: k.value for k in e.keywords}
+        # --- `traverse(topology, enter=F, leave=G, root=r)` / `self.traverse(...)` with translated closures as callbacks
+        if f in ("traverse", "self.traverse") and (self.spec.closures or True) and any(k in kw for k in ("enter", "leave")):
+            if not self.spec.fuel:
+                raise Untranslatable(f"{self.spec.lean}: traverse needs fuel")
+            if f == "traverse":
+                s0, topo, _ = self.tr(args[0])
+            else:
+                if not self.spec.self_topology:
+                    raise Untranslatable(f"{self.spec.lean}: self.traverse without a topology")
+                s0, topo = [], f"({self.spec.self_topology[0]}, {self.spec.self_topology[1]})"
+            steps = list(s0)
+            root = "(0 : Int)"
+            if "root" in kw:
+                s1, root, _ = self.tr(kw["root"]); steps += s1
+            cbs = {}
+            caps = None
+            for which in ("enter", "leave"):
+                if which in kw:
+                    key = kw[which].id if isinstance(kw[which], ast.Name) else ("<lambda>" if isinstance(kw[which], ast.Lambda) else None)
+                    if key not in self.spec.closures:
+                        raise Untranslatable(f"{self.spec.lean}: callback `{ast.unparse(kw[which])}` has no translation")
+                    callee = by_lean_global[self.spec.closures[key]]
+                    cbs[which] = callee
+                    if caps is not None and caps != callee.captures:
+                        raise Untranslatable("enter and leave capture different variables")
+                    caps = callee.captures
+            caps = caps or []
+            # callback state: the captured variables (a tuple, right-nested; Unit when there is none)
+            st0 = "()" if not caps else "(" + ", ".join(f"v.{lname(c)}" for c in caps) + ")"
+            ecode = f"(Py.wrapE {cbs['enter'].lean})" if "enter" in cbs else "(Py.wrapE Py.noEnter)"
+            lcode = f"(Py.wrapL {cbs['leave'].lean})" if "leave" in cbs else "(Py.wrapL Py.noLeave)"
+            rty = parse_type(cbs["leave"].ret) if "leave" in cbs else "Unit"
+            n = self.bindname()
+            back = ""
+            if caps:
+                back = " let v := { v with " + ", ".join(f"{lname(c)} := {proj(n + '.1', k, len(caps))}" for k, c in enumerate(caps)) + " };"
+            steps.append(f"Py.bind (Py.unwrapCb (traverse_dfs {ecode} {lcode} fuel {topo} {root} (some {st0}))) fun {n} =>{back}")
+            return steps, f"{n}.2", rty
         # --- `len(self)` of a translated class
         if f == "len" and len(args) == 1 and f"{ast.unparse(e)}#{self.spec.cls}" in self.table:
             callee = self.table[f"{ast.unparse(e)}#{self.spec.cls}"]
@@ -675,6 +717,11 @@ class FnTr:
             s0, c, t = self.tr(args[0])
             if t == ("List", "Int"):
                 return s0, f"(Py.cumsum {c})", ("List", "Int")
+        if f == "list" and len(args) == 1 and isinstance(args[0], ast.Call) and ast.unparse(args[0].func) == "itertools.chain" \
+                and len(args[0].args) == 1 and isinstance(args[0].args[0], ast.Starred):
+            s0, c, t = self.tr(args[0].args[0].value)          # list(itertools.chain(*xs))
+            if isinstance(t, tuple) and t[0] == "List" and isinstance(t[1], tuple) and t[1][0] == "List":
+                return s0, f"(({c}).flatten)", t[1]
         if f == "list" and len(args) == 1:
             return self.tr(args[0], want)
         if f == "np.unique" and len(args) == 1:
@@ -753,6 +800,11 @@ class FnTr:
     def s_Pass(self, s):
         return None
 
+    def s_FunctionDef(self, s):
+        if s.name in self.spec.closures:
+            return None                      # translated separately; used at the `traverse(...)` call
+        raise Untranslatable(f"{self.spec.lean}: nested function `{s.name}` without a translation")
+
     def s_Expr(self, s):
         e = s.value
         if isinstance(e, ast.Constant) and isinstance(e.value, str):
@@ -774,6 +826,16 @@ class FnTr:
                 lv = self.lvalue(recv)
                 # the receiver is read AFTER the argument was evaluated (the argument may not touch it)
                 return self.chain(s1, ".next " + lv(f"(v.{lname(recv.id)} ++ {x})") if isinstance(recv, ast.Name) else None)
+            if meth == "reverse" and not e.args:
+                s0, a, ta = self.tr(recv)
+                if isinstance(ta, tuple) and ta[0] == "List":
+                    lv = self.lvalue(recv)
+                    return self.chain(s0, ".next " + lv(f"({a}).reverse"))
+            if meth == "insert" and len(e.args) == 2 and isinstance(e.args[0], ast.Constant) and e.args[0].value == 0:
+                s0, a, ta = self.tr(recv)
+                s1, x, _ = self.tr(e.args[1], ta[1] if isinstance(ta, tuple) else None)
+                lv = self.lvalue(recv)
+                return self.chain(s0 + s1, ".next " + lv(f"({x} :: {a})"))
             if meth == "setdefault" and len(e.args) == 2:
                 s0, d, td = self.tr(recv)
                 s1, k, _ = self.tr(e.args[0]); s2, dv, _ = self.tr(e.args[1], td[2])
@@ -969,6 +1031,8 @@ class FnTr:
     # ---- whole function ------------------------------------------------------------------
     def translate(self, fdef: ast.FunctionDef) -> str:
         sp = self.spec
+        if sp.nested:
+            return self.translate_nested(fdef)
         self.hoist = not (sp.fuel and (f"self.{sp.func}(" in ast.unparse(fdef) or any(
             isinstance(n, ast.Call) and ast.unparse(n.func) == sp.func for n in ast.walk(fdef))))
         body = self.block(fdef.body)
@@ -1030,6 +1094,42 @@ class FnTr:
         return "\n".join(lines) + "\n"
 
 
+
+    def translate_nested(self, outer: ast.FunctionDef) -> str:
+        """a closure: `def F(a, b)` capturing `caps`  ->  `F (s : S) (a) (b) : Option (S × R)` with S the tuple of captured variables"""
+        sp = self.spec
+        fdef = find_nested(outer, sp.nested)
+        pnames = [a.arg for a in fdef.args.args]
+        if len(pnames) != len(sp.params):
+            raise Untranslatable(f"{sp.lean}: closure takes {pnames}, the spec says {sp.params}")
+        # the closure's own parameter names are renamed to the spec's (a lambda's `_` etc.)
+        ren = {a: b for a, b in zip(pnames, sp.params) if a != b}
+        if ren:
+            for nd in ast.walk(fdef):
+                if isinstance(nd, ast.Name) and nd.id in ren:
+                    nd.id = ren[nd.id]
+        self.hoist = True
+        body = self.block(fdef.body)
+        allvars = dict(self.vars)
+        allvars.update(self.extra_vars)
+        fields = "\n".join(f"  {lname(k)} : {show_type(t)}" for k, t in allvars.items())
+        caps = sp.captures
+        S = "Unit" if not caps else "(" + " × ".join(show_type(self.vars[c]) for c in caps) + ")"
+        ret_t = show_type(parse_type(sp.ret))
+        doc = sp.doc or f"`{sp.file}::{sp.func}`, nested `{sp.nested}`"
+        lines = [f"/-- variables of {doc} -/", f"structure {sp.lean}.V where", fields,
+                 f"instance {sp.lean}.instV : Inhabited {sp.lean}.V := ⟨{{ " + ", ".join(f"{lname(k)} := default" for k in allvars) + " }⟩"]
+        for nm, ty, code in self.aux:
+            lines.append(f"def {nm} : {ty} :=\n" + textwrap.indent(code, "  "))
+        lines.append(f"def {sp.lean}.body : {sp.lean}.V → Py.Res {sp.lean}.V {ret_t} :=\n" + textwrap.indent(body, "  "))
+        params = " ".join(f"({lname(p)} : {show_type(self.vars[p])})" for p in sp.params)
+        init = ", ".join([f"{lname(p)} := {lname(p)}" for p in sp.params] + [f"{lname(c)} := {proj('s', k, len(caps))}" for k, c in enumerate(caps)])
+        out_s = "()" if not caps else "(" + ", ".join(f"r.1.{lname(c)}" for c in caps) + ")"
+        lines.append(f"/-- {doc}: the closure as a state-passing function over its captured variables (`none` = it raised) -/")
+        lines.append(f"def {sp.lean} (s : {S}) {params} : Option ({S} × {ret_t}) :=")
+        lines.append(f"  (Py.finish default ({sp.lean}.body {{ (default : {sp.lean}.V) with {init} }})).map fun r => ({out_s}, r.2)")
+        return "\n".join(lines) + "\n"
+
 STRUCT_CTORS = {}
 CLASS_INITS = {"DisjointSetUnion": "dsu_init"}      # python class name -> lean name of its translated __init__
 by_lean_global = {}
@@ -1048,6 +1148,24 @@ def find_def(tree: ast.Module, cls, func):
     if not cands:
         raise Untranslatable(f"function {func} not found")
     return cands[-1]          # the implementation follows its @overload stubs
+
+
+def find_nested(fdef: ast.FunctionDef, name: str) -> ast.FunctionDef:
+    """the nested function `name` of `fdef`, or its only lambda (as a function whose body is the lambda's expression statement)"""
+    if name == "<lambda>":
+        lams = [n for n in ast.walk(fdef) if isinstance(n, ast.Lambda)]
+        if len(lams) != 1:
+            raise Untranslatable(f"{fdef.name}: expected exactly one lambda, found {len(lams)}")
+        lam = lams[0]
+        f = ast.FunctionDef(name="lambda_", args=lam.args, body=[ast.Expr(lam.body)], decorator_list=[], returns=None, type_comment=None)
+        for nd in ast.walk(f):
+            if not hasattr(nd, "lineno"):
+                nd.lineno = nd.col_offset = nd.end_lineno = nd.end_col_offset = 0
+        return f
+    for n in ast.walk(fdef):
+        if isinstance(n, ast.FunctionDef) and n.name == name and n is not fdef:
+            return n
+    raise Untranslatable(f"nested function {name} not found in {fdef.name}")
 
 
 # ----------------------------------------------------------------------------- the functions
@@ -1166,6 +1284,39 @@ spec(lean="mark_roots_as_somas_", module="AlgoNormalizer", file="swcgeom/core/sw
      subst=dict(_DF, **{"update_type is not False": ("(v.update_type).isSome", "Bool"), "update_type": ("(v.update_type.getD 0)", "Int")}),
      stores=_DFS, skip_stmts=["names = get_names(names)"],
      doc="`swcgeom/core/swc_utils/normalizer.py::mark_roots_as_somas_` (DataFrame columns as variables; `update_type=False` is `none`)")
+
+
+_BR = "List ((List (List Int)) × (List Int))"
+_TREE = "swcgeom/core/tree.py"
+spec(lean="collect_branches", module="AlgoBranches", file=_TREE, cls="Tree", func="get_branches", nested="collect_branches",
+     params=["node", "pre"],
+     vars={"node": "Int", "pre": _BR, "branches": "List (List Int)", "child": "List Int", "sub_branches": "List (List Int)"},
+     ret="(List (List Int)) × (List Int)",
+     subst={"node.id": ("v.node", "Int"), "Tree.Branch(self, np.array(child, dtype=np.int32))": ("v.child", "List Int")},
+     doc="`swcgeom/core/tree.py::Tree.get_branches`, nested `collect_branches` (a `Tree.Branch` is the list of its node ids; a `Node` is its id)")
+spec(lean="get_branches", module="AlgoBranches", file=_TREE, cls="Tree", func="get_branches",
+     params=["ids", "pids"], vars={"ids": "List Int", "pids": "List Int", "branches": "List (List Int)", "child": "List Int"},
+     ret="List (List Int)", fuel=True, closures={"collect_branches": "collect_branches"}, self_topology=("v.ids", "v.pids"),
+     subst={"Tree.Branch(self, np.array(child, dtype=np.int32))": ("v.child", "List Int")},
+     doc="`swcgeom/core/tree.py::Tree.get_branches` (the tree is its two topology columns `ids`, `pids`)")
+spec(lean="collect_furcations", module="AlgoBranches", file=_TREE, cls="Tree", func="get_furcations", nested="collect_furcations",
+     params=["n", "children"], vars={"n": "Int", "children": "List Unit", "furcations": "List Int"}, ret="Unit", captures=["furcations"],
+     subst={"n.id": ("v.n", "Int")})
+spec(lean="get_furcations", module="AlgoBranches", file=_TREE, cls="Tree", func="get_furcations",
+     params=["ids", "pids"], vars={"ids": "List Int", "pids": "List Int", "furcations": "List Int", "i": "Int"},
+     ret="List Int", fuel=True, closures={"collect_furcations": "collect_furcations"}, self_topology=("v.ids", "v.pids"),
+     subst={"self.node(i)": ("v.i", "Int")})
+spec(lean="assign_path", module="AlgoBranches", file=_TREE, cls="Tree", func="get_paths", nested="assign_path",
+     params=["n", "pre_path"], vars={"n": "Int", "pre_path": "Option (List Int)", "path": "List Int", "path_dic": "Dict Int (List Int)"},
+     ret="List Int", captures=["path_dic"],
+     subst={"n.id": ("v.n", "Int"), "[] if pre_path is None else pre_path.copy()": ("(v.pre_path.getD [])", "List Int")})
+spec(lean="collect_path", module="AlgoBranches", file=_TREE, cls="Tree", func="get_paths", nested="collect_path",
+     params=["n", "children"], vars={"n": "Int", "children": "List (List (List Int))", "path_dic": "Dict Int (List Int)"},
+     ret="List (List Int)", captures=["path_dic"], subst={"n.id": ("v.n", "Int")})
+spec(lean="get_paths", module="AlgoBranches", file=_TREE, cls="Tree", func="get_paths",
+     params=["ids", "pids"], vars={"ids": "List Int", "pids": "List Int", "path_dic": "Dict Int (List Int)", "paths": "List (List Int)", "idx": "List Int"},
+     ret="List (List Int)", fuel=True, closures={"assign_path": "assign_path", "collect_path": "collect_path"}, self_topology=("v.ids", "v.pids"),
+     subst={"self.Path(self, idx)": ("v.idx", "List Int")})
 
 
 def regenerate(modules=None):
